@@ -144,6 +144,12 @@ def table_traces(args):
                 nt = NTERM[region]
                 dT = np.array([[rng.uniform(0.5, 120.0) for _ in range(nt)]
                                for _ in range(2)])
+                # a rise of exactly zero (pins without a gap have no gap
+                # rise; an unheated pin has no rise at all)
+                if nt >= 5 and rng.random() < 0.5:
+                    dT[:, 4] = 0.0
+                elif nt >= 2 and rng.random() < 0.2:
+                    dT[1, 1:] = 0.0
                 ev = []
                 try:
                     for IN in (1, 2, 3):
